@@ -12,6 +12,7 @@ description outside the character set; for JOSE an exception outside the JoseErr
 import base64
 import itertools
 import json
+import os
 import time
 
 from flask import Flask, jsonify, request as flask_request
@@ -747,8 +748,19 @@ def run_jose(ctx):
                 ("jwe.deserialize_compact:RSA-OAEP", lambda t: jwe.deserialize_compact(t, E.material("rsa1")), rsa_enc),
                 ("jwe.deserialize_compact:ECDH-ES+A128KW", lambda t: jwe.deserialize_compact(t, E.material("p256")), ec_enc),
                 ("jwe.deserialize_compact:dir", lambda t: jwe.deserialize_compact(t, E.material("oct16")), dir_enc)]
-    for name, fn, good in targets:
-        for lab, t in [("good", good)] + seg_mutations(rng, good, quick):
+    # the minimised inputs of the known findings run first (harness/corpus/c20_known.json, one per listed finding: the tokens were
+    # made with the fixture keys, so they replay), so that every listed finding is exhibited on every run, whatever the sample
+    import core as _core
+    corpus = []
+    cpath = os.path.join(os.path.dirname(os.path.dirname(os.path.abspath(__file__))), "corpus", "c20_known.json")
+    if os.path.exists(cpath):
+        by_name = {name: fn for name, fn, _ in targets}
+        for item in json.load(open(cpath)):
+            c = _core.unjson(item["case"])
+            if c.get("entry") in by_name:
+                corpus.append((c["entry"], by_name[c["entry"]], [("corpus:" + c["variant"], c["token"])]))
+    for name, fn, muts in corpus + [(name, fn, [("good", good)] + seg_mutations(rng, good, quick)) for name, fn, good in targets]:
+        for lab, t in muts:
             case = {"entry": name, "variant": lab, "token": t}
             ctx.case(case, (name, t), "jose:%s:%s" % (name, lab))
             try:
